@@ -1,5 +1,5 @@
 (* Dispatch.v — one entry point for the extracted binary and for vm_compute: request tree -> reply tree. *)
-From DV Require Export Model.Tree Model.Reader.
+From DV Require Export Model.Tree Model.Reader Model.Iflr.
 
 Definition t_lrec (r : lrec) : tree := TL [t_bool (lr_eflr r); TI (lr_type r); TB (lr_body r)].
 Definition as_lrec (t : tree) : option lrec :=
@@ -65,6 +65,14 @@ Definition prim_dec (code : Z) (bs : bytes) : tree :=
 Definition t_seg (s : segment) : tree :=
   TL [t_bool (s_eflr s); t_bool (s_pred s); t_bool (s_succ s); TI (s_type s); TB (s_chunk s); TB (s_padb s)].
 
+Definition as_slot (t : tree) : option slot :=
+  match t with TL [TI size; TB vs] => Some (size, vs) | _ => None end.
+Definition t_slot (s : slot) : tree := TL [TI (fst s); TB (snd s)].
+Definition as_descr (t : tree) : option (Z * nat) :=
+  match t with TL [TI size; TI n] => Some (size, Z.to_nat n) | _ => None end.
+Definition as_payload (t : tree) : option payload :=
+  match t with TL [TI 0; TB b] => Some (PBytes b) | TL [TI 1; TB s] => Some (PText s) | _ => None end.
+
 Definition dispatch (t : tree) : tree :=
   match t with
   | TL [TI 1; TI code; v] => prim code v
@@ -94,5 +102,32 @@ Definition dispatch (t : tree) : tree :=
       t_opt (t_list (t_list t_seg)) (parse_file {| sul_seq := seq; sul_vrl := vrl; sul_id := ident |} bs)
   | TL [TI 10; TB bs] =>                                       (* label fields, configuration-free *)
       t_opt (fun '(a, b, c) => TL [TB a; TB b; TB c]) (read_sul bs)
+  | TL [TI 11; o; p] =>                                        (* no-format body *)
+      match as_obname o, as_payload p with
+      | Some o', Some p' => t_res TB (nofmt_body o' p')
+      | _, _ => t_bad
+      end
+  | TL [TI 12; o; TI n; TL ss] =>                              (* frame-data body *)
+      match as_obname o, map_opt as_slot ss with
+      | Some o', Some ss' => t_res TB (fdata_body o' n ss')
+      | _, _ => t_bad
+      end
+  | TL [TI 13; TL ds; TB body] =>                              (* frame-data reader *)
+      match map_opt as_descr ds with
+      | Some ds' => t_opt (fun '(o, n, ss) => TL [t_obname o; TI n; t_list t_slot ss]) (dec_fdata ds' body)
+      | None => t_bad
+      end
+  | TL [TI 14; TB body] => t_opt (fun '(o, d) => TL [t_obname o; TB d]) (dec_nofmt body)
+  | TL [TI 15; TB bs] =>                                       (* bare segments: parse and reassemble *)
+      match parse_segs (S (length bs)) bs with
+      | Some ss => TL [TI 0; t_list t_seg ss; t_opt (t_list t_lrec) (reassemble_aux None ss)]
+      | None => t_none
+      end
+  | TL [TI 16; TI seq; TI vrl; TB ident; TL recs; TI cap; TB disk0] =>   (* buffered writer end to end *)
+      match map_opt as_lrec recs with
+      | Some rs => t_res (fun s => TL [TB (o_disk s); TI (o_total s); t_list TB (rev (o_snaps s))])
+                         (write_buffered {| sul_seq := seq; sul_vrl := vrl; sul_id := ident |} rs cap disk0)
+      | None => t_bad
+      end
   | _ => t_bad
   end.
